@@ -154,16 +154,14 @@ impl<'a> LexicographicIterator for SortedVecLexIterator<'a> {
     }
 
     fn seek_lower_bound(&mut self, target: &str) -> std::result::Result<bool, Self::Error> {
-        match self.binary_search_by(|s| s.cmp(target)) {
-            Ok(pos) => {
-                self.position = Some(pos);
-                Ok(true) // Exact match
-            }
-            Err(pos) => {
-                self.position = if pos < self.strings.len() { Some(pos) } else { None };
-                Ok(false) // No exact match
-            }
-        }
+        // Leftmost position whose string is >= target (also among duplicates)
+        let pos = match self.binary_search_by(|s| {
+            if s < target { Ordering::Less } else { Ordering::Greater }
+        }) {
+            Ok(pos) | Err(pos) => pos,
+        };
+        self.position = if pos < self.strings.len() { Some(pos) } else { None };
+        Ok(pos < self.strings.len() && self.strings[pos] == target)
     }
 
     fn size_hint(&self) -> Option<usize> {
